@@ -102,6 +102,6 @@ def mutants():
     return [
         Mutant("to_bytes:shortest-match", T + "to_bytes", textual("range(min(len(text), self.max_text_length), 0, -1)", "range(1, min(len(text), self.max_text_length) + 1)"), only_harness="to_bytes", max_cases=8),
         Mutant("to_bytes:escape-masked-7bit", T + "to_bytes", textual("int(matches.group('byte'), 16)", "int(matches.group('byte'), 16) & 127"), only_harness="to_bytes"),
-        Mutant("to_bytes:unknown-char-emitted", T + "to_bytes", textual("            current_position += 1", "            binary_text += b'?'\\n            current_position += 1"), only_harness="to_bytes", max_cases=8),
+        Mutant("to_bytes:unknown-char-emitted", T + "to_bytes", textual("            current_position += 1", "            binary_text += b'?'\n            current_position += 1"), only_harness="to_bytes", max_cases=8),
         Mutant("get_table:no-fallback", "a816.symbols.Scope.get_table", textual("return self.parent.get_table()", "return None"), only_harness="get_table"),
     ]
